@@ -1,10 +1,77 @@
-(* C26 -- Redis-backed permanent store behaves like the leveldb one.  Property theorems only. *)
-From Coq Require Import List NArith ZArith Bool.
-From MV Require Import Gen.C26 C26.Model C26.Proofs.
+(* C26 -- Redis-backed permanent store behaves like the leveldb one.  Property theorems only.
+
+   run be merges        : the database after merging the blocks, in order, into backend be
+   reopen be            : close and reopen (all in-memory fields rebuilt by the load* functions)
+   do_read be db r      : one isaac.PermanentDatabase read
+   spec_read merges r   : the same read answered from the list of merged blocks
+   valid (rev merges)   : block heights and suffrage heights are int64 >= 0 and strictly increasing
+   read_in_domain r     : a height argument is >= base.NilHeight (-1) and an int64 *)
+From Coq Require Import List NArith ZArith Bool Lia.
+From MV Require Import Gen.C26 C26.Model C26.Keys C26.Proofs.
 Import ListNotations.
 Open Scope Z_scope.
 
+(* For any sequence of merged blocks the Redis-backed database answers every read exactly as the
+   leveldb-backed one ... *)
+Theorem C26_backends_agree : forall merges r, valid (rev merges) -> read_in_domain r ->
+  do_read Redis (run Redis merges) r = do_read Leveldb (run Leveldb merges) r.
+Proof. exact backends_agree. Qed.
+
+(* ... including after reopening *)
+Theorem C26_backends_agree_after_reopen : forall merges r, valid (rev merges) -> read_in_domain r ->
+  do_read Redis (reopen Redis (run Redis merges)) r = do_read Leveldb (reopen Leveldb (run Leveldb merges)) r.
+Proof. exact backends_agree_after_reopen. Qed.
+
+(* both refine the same specification of a chain *)
+Theorem C26_read_refines : forall be merges r, valid (rev merges) -> read_in_domain r ->
+  do_read be (run be merges) r = spec_read merges r.
+Proof. exact read_refines. Qed.
+
+(* reopening changes nothing at all (every in-memory field is rebuilt to the same value) *)
+Theorem C26_reopen_id : forall be merges, valid (rev merges) -> reopen be (run be merges) = run be merges.
+Proof. exact reopen_id. Qed.
+
 (* reads that involve no height-keyed lookup agree for every sequence of merges whatsoever *)
-Theorem C26_unordered_reads_agree : forall chain r, unordered_read r = true ->
-  do_read Redis (run Redis chain) r = do_read Leveldb (run Leveldb chain) r.
+Theorem C26_unordered_reads_agree : forall merges r, unordered_read r = true ->
+  do_read Redis (run Redis merges) r = do_read Leveldb (run Leveldb merges) r.
 Proof. exact unordered_reads_agree. Qed.
+
+(* the two key encodings of a height preserve order: leveldb's 8 big-endian bytes and Redis' "%021d"
+   (the width 21 and the closing run of 20 nines are the constants regenerated from the Go source) *)
+Theorem C26_key_encodings_preserve_order : forall a c, 0 <= a <= max_height -> 0 <= c <= max_height ->
+  lex_le (be8 a) (be8 c) = (a <=? c) /\ lex_le (dec21 a) (dec21 c) = (a <=? c)
+  /\ lex_le (dec21 a) (nines (Z.to_nat redis_end_nines_blockmaps)) = true
+  /\ lex_le (dec21 a) (nines (Z.to_nat redis_end_nines_suffrageproofs)) = true.
+Proof. exact key_encodings_preserve_order. Qed.
+
+Theorem C26_generated_constants : height_fixed_width = 21 /\ redis_end_nines_blockmaps = 20
+  /\ redis_end_nines_suffrageproofs = 20
+  /\ NoDup [leveldb_prefix_blockmap; leveldb_prefix_suffrageproof; leveldb_prefix_suffrageproof_by_blockheight;
+            leveldb_prefix_state; leveldb_prefix_instate_operation; leveldb_prefix_known_operation]
+  /\ NoDup [redis_prefix_blockmap; redis_prefix_suffrageproof; redis_prefix_suffrageproof_by_blockheight;
+            redis_prefix_state; redis_prefix_instate_operation; redis_prefix_known_operation]
+  /\ redis_zkey_blockmaps <> redis_zkey_suffrageproofs_by_blockheight.
+Proof. exact generated_constants. Qed.
+
+(* non-vacuity: a chain crossing heights 9 -> 10 -> 11 with two suffrage proofs is valid, and the read
+   "suffrage proof for block height 9" is answered with the proof of block 8 by both *)
+Definition ex_chain : list block :=
+  [mkBlock 8 1%N [(1%N, 8, 2%N)] [3%N] [4%N] (Some (0, 5%N)) None;
+   mkBlock 9 6%N [] [] [] None (Some 7%N);
+   mkBlock 10 8%N [(1%N, 10, 9%N)] [] [] (Some (1, 10%N)) None;
+   mkBlock 11 11%N [] [] [] None None].
+
+Example C26_example_valid : valid (rev ex_chain).
+Proof.
+  constructor; cbn.
+  - repeat split; intros y H; cbn in H; intuition lia.
+  - intros b H. unfold max_height. intuition (subst; cbn; lia).
+  - repeat split; intros y H; cbn in H; intuition lia.
+  - intros p H. unfold max_height. intuition (subst; cbn; lia).
+Qed.
+
+Example C26_example_read :
+  do_read Redis (reopen Redis (run Redis ex_chain)) (RProofByBlock 9) = AVal 5%N
+  /\ do_read Leveldb (reopen Leveldb (run Leveldb ex_chain)) (RProofByBlock 9) = AVal 5%N
+  /\ spec_read ex_chain (RProofByBlock 9) = AVal 5%N.
+Proof. vm_compute. repeat split; reflexivity. Qed.
